@@ -582,7 +582,7 @@ impl Property for C14 {
     }
     fn rule(&self, tier: Tier) -> String {
         format!(
-            "{} CNF formulas over <=3 variables as ordered literal sequences (empty formula, empty clause, unit, duplicate and tautological clauses included). Part A, in-process on the repository's own parsers/dimacs.rs: for every formula all layouts with <=2 non-default separators out of {{two spaces, tab, newline, CRLF, comment line, trailing-space+comment line}} between any two tokens x 4 prefixes x 5 suffixes (<=1 deviation), and for the layouts with <=1 deviation every 1-cut and every 2-cut chunking of the byte stream (short reads): the parser must deliver exactly the formula; the verdict through the repository's sink equals brute force and the model satisfies every clause. Part B, the real binary on every formula and on {} structured formulas of up to 20 variables whose refutation needs learned lemmas (pigeonhole incl. polarity flips, complete sign-pattern formulas with and without one clause, xor chains with auxiliary variables, cardinality contradictions, ordering principle) (canonical spelling and two layouts) with --proof-path: s/v lines are checked against brute force and the proof against an own forward RUP checker (every lemma RUP, empty clause present). A case = one formula (part A) or one formula (part B); the counters give the numbers of layouts, chunkings and CLI runs.",
+            "{} CNF formulas over <=3 variables as ordered literal sequences (empty formula, empty clause, unit, duplicate and tautological clauses included). Part A, in-process on the repository's own parsers/dimacs.rs: for every formula all layouts with <=2 non-default separators out of {{two spaces, tab, newline, CRLF, comment line, trailing-space+comment line}} between any two tokens x 4 prefixes x 5 suffixes (<=1 deviation), and for the layouts with <=1 deviation every 1-cut and every 2-cut chunking of the byte stream (short reads): the parser must deliver exactly the formula; the verdict through the repository's sink equals brute force and the model satisfies every clause. Part B, the real binary on every formula and on {} structured formulas of up to 20 variables whose refutation needs learned lemmas (pigeonhole incl. polarity flips, complete sign-pattern formulas with and without one clause, xor chains with auxiliary variables, cardinality contradictions, ordering principle) (canonical spelling and two layouts) with --proof-path, and once more under --time-limit 0 (the answer may be s UNKNOWN but must not be wrong): s/v lines are checked against brute force and the proof against an own forward RUP checker (every lemma RUP, empty clause present). A case = one formula (part A) or one formula (part B); the counters give the numbers of layouts, chunkings and CLI runs.",
             part_a_formulas(tier).len(),
             structured_formulas(tier).len()
         )
@@ -791,6 +791,48 @@ impl Property for C14 {
                             format!("cli-failed:layout{k}"),
                             format!("file {text:?}: exit status {st:?}, status line {s:?}, output {:?}", out.stdout.chars().take(300).collect::<String>()),
                         ),
+                    }
+                    let _ = std::fs::remove_file(&path);
+                    let _ = std::fs::remove_file(&proof);
+                }
+                // the same formula under an exhausted time budget (--time-limit 0) with a proof
+                // file: whatever is reported must still be true - s UNKNOWN, a verified model, or
+                // s UNSATISFIABLE only for a formula without models and with a complete proof
+                {
+                    let path = format!("{dir}/c14_{my}_t.cnf");
+                    let proof = format!("{dir}/c14_{my}_t.drat");
+                    let _ = std::fs::remove_file(&proof);
+                    std::fs::write(&path, &texts[0]).expect("write cnf");
+                    cx.acc.count("cli_runs", 1);
+                    let out = run_cli(&[&path, "--time-limit", "0", "--proof-path", &proof], 20).expect("run cli");
+                    let s_line = out.stdout.lines().find(|l| l.starts_with("s "));
+                    match (out.status, s_line) {
+                        (Some(0), Some("s UNKNOWN")) => cx.acc.outcome("cli-unknown-under-time-limit-0"),
+                        (Some(0), Some("s SATISFIABLE")) => {
+                            let lits: Vec<i32> = out.stdout.lines().find(|l| l.starts_with("v ")).map(|v| v[2..].split_whitespace().filter_map(|t| t.parse().ok()).collect()).unwrap_or_default();
+                            let mut asg = vec![None; f.n];
+                            for l in &lits {
+                                if *l != 0 && (l.unsigned_abs() as usize) <= f.n {
+                                    asg[l.unsigned_abs() as usize - 1] = Some(*l > 0);
+                                }
+                            }
+                            if asg.iter().any(|a| a.is_none()) || !f.holds(&asg.iter().map(|a| a.unwrap()).collect::<Vec<_>>()) {
+                                cx.violation("cli-model-violates-clause:time-limit-0", "s SATISFIABLE under --time-limit 0 with a model that does not satisfy the formula".to_string());
+                            }
+                        }
+                        (Some(0), Some("s UNSATISFIABLE")) => {
+                            if let Some(w) = &truth {
+                                cx.violation("cli-spurious-unsat:time-limit-0", format!("s UNSATISFIABLE under --time-limit 0 but {w:?} is a model"));
+                            } else {
+                                let p = std::fs::read_to_string(&proof).unwrap_or_default();
+                                match rup_check(f, &p) {
+                                    Ok(true) => {}
+                                    Ok(false) => cx.violation("proof-without-empty-clause:time-limit-0", format!("proof {p:?}")),
+                                    Err(e) => cx.violation("proof-not-rup:time-limit-0", format!("proof {p:?}: {e}")),
+                                }
+                            }
+                        }
+                        (st, s) => cx.violation("cli-failed:time-limit-0", format!("exit status {st:?}, status line {s:?}")),
                     }
                     let _ = std::fs::remove_file(&path);
                     let _ = std::fs::remove_file(&proof);
